@@ -586,6 +586,11 @@ func stubList() []string {
 		"zerolog: all calls no-ops",
 		"sync.Mutex/RWMutex/WaitGroup: no-ops; sync/atomic: plain loads/stores (sequential execution)",
 		"math/bits.LeadingZeros*: ite chain; math.Float*bits: bit casts",
+		"lz4.CompressBlock/UncompressBlock, snappy.Encode/Decode: contract stubs (lossless, length-carrying, 1 <= k <= bound, LZ4 ratio <= 255:1, never panic); hash/crc32: bitwise model",
+		"datacodec extractor/injector interfaces: non-reflective stand-ins in the container harnesses (typed pointers, nil = NULL; the injector factory panics on a negative size as reflect.MakeSlice does); natively the same harnesses run the real reflective codecs",
+		"sync.Pool: Get always builds a new object with New, Put records the memory as released (a function returning released memory is reported, C18)",
+		"(*big.Float).SetFloat64: contract stub (panics on NaN, value not modelled); strings.EqualFold: exact on ASCII byte lists, non-ASCII content ends the path as unsupported",
+		"solver: z3 4.8.12 incremental; a query answered unknown is retried once as a standalone script by a one-shot z3 with five times the budget",
 	}
 }
 
